@@ -8,6 +8,8 @@ pub mod optimize;
 pub mod parser;
 mod pretty;
 pub mod tx;
+#[cfg(feature = "verif-hooks")]
+pub mod verif;
 
 use pallas_codec::minicbor;
 pub use pallas_primitives::{
